@@ -466,7 +466,7 @@ fn sequences(alphabet: &[Op], len: usize) -> Vec<Case> {
 
 pub fn run(ctx: &Ctx, rep: &mut Report) {
     crate::interpose::virtual_clock(true);
-    let n = ctx.amount(6000, 200_000);
+    let n = ctx.amount(60_000, 400_000);
     explore(ctx, rep, "histories", n, (prop::collection::vec(op_strategy(), 1..40), prop_oneof![3 => Just(vec![]), 2 => prop::collection::vec(prop_oneof![4 => Just(0u8), 2 => Just(1u8), 1 => Just(2u8)], 40)]).prop_map(|(ops, spell)| Case { ops, spell }), |c| run_case(ctx, c));
     let max_len = ctx.amount(3, 4) as usize;
     let alpha = small_ops();
